@@ -15,11 +15,12 @@ MCS = {
          "PairSound", ()),
     ],
     "thorough": [
-        ("MC_Annot_pairs_T.cfg", "find_pairs label counting + greedy edge occupation as implemented, 4 residues, "
+        ("MC_Annot_pairs_T.cfg", "find_pairs label counting + greedy edge occupation as implemented, 3 residues, "
                                  "<= 3 labels, counts 1..3, every tie order: EdgeExclusive, PairMaximal",
          None, ("CollectLabel", "GreedyTake", "GreedySkip", "GreedyDone")),
-        ("MC_Annot_pairs_req_T.cfg", "required variant, 3 residues, <= 3 labels, <= 2 O2' contacts per label: "
-                                     "EdgeExclusive, PairMaximal, PairSound",
+        ("MC_Annot_pairs_T4.cfg", "same, 4 residues, <= 2 labels, <= 2 O2' contacts per label",
+         None, ("CollectLabel", "GreedyTake", "GreedySkip", "GreedyDone")),
+        ("MC_Annot_pairs_req_T.cfg", "required variant, 3 residues, <= 3 labels: EdgeExclusive, PairMaximal, PairSound",
          None, ("CollectLabel", "GreedyTake", "GreedySkip", "GreedyDone")),
         ("MC_Annot_pairs_neg.cfg", "negative control: as implemented (O2' counted twice) violates PairSound",
          "PairSound", ()),
